@@ -23,6 +23,10 @@ def jobs(tier):
         J('h_resp_cmdt', L=260, windows=255, limit=7, gap='1/100')
         J('h_orig_bam', L=260, eps_sym=False)
         J('h_resp_bam', L=300, gap='1/20')
+        # the largest message (1785 = 0x06F9: bits 1 and 2 of the second size byte; seed C03-10 masked it with 0x03)
+        J('h_resp_cmdt', L=1785, windows=255, gap='1/100', limit=255)
+        J('h_orig_bam', L=1785, eps_sym=False)
+        J('h_resp_bam', L=1785, gap='1/20')
     # a window of one packet and a slow originator: the whole transfer lasts longer than T2 although no single wait does
     J('h_resp_cmdt', L=78, windows=1)
     # messages that fit into one frame
